@@ -10,7 +10,8 @@ fails.
 from __future__ import annotations
 
 PRIORITY = ["write-exc", "read-exc", "proj:", "eq-false", "rewrite-exc",
-            "text-2nd", "verdict", "source-mutated", "earlier-yaml"]
+            "text-2nd", "verdict", "write-not-repeatable", "source-mutated",
+            "earlier-yaml"]
 MUTATION_KINDS = ("source-mutated", "earlier-yaml-unequal-after-writer")
 STRUCTURAL = ("ncols=", "index", "multiindex")
 
@@ -60,6 +61,12 @@ def _collapsed_to_one_per_kind(len_detail, kinds):
         len_detail.get("back") == len(set(kinds)) < len(kinds)
 
 
+def _came_back_as_str(d):
+    """Projection detail of a text slot: the re-read value is a real str."""
+    back = d.get("back") if isinstance(d, dict) else None
+    return isinstance(back, str) and not back.startswith("<")
+
+
 COMMON_TAIL = ("eq-false", "text-2nd-gen-differs", "verdict-differs")
 ARGS = lambda p: (f"{p}.check:", f"{p}.check-arg:", f"{p}.check-opt:")
 PLACES = ("col", "idx", "frame")
@@ -107,7 +114,11 @@ def classify(route, kinds, tokens, detail):
                     K, ("write-exc:InvalidInput", "read-exc:NameError",
                         "read-exc:SyntaxError", f"proj:frame.{slot}",
                         "rewrite-exc:InvalidInput") + COMMON_TAIL,
-                    ("write-exc", "read-exc", f"proj:frame.{slot}")):
+                    ("write-exc", "read-exc", f"proj:frame.{slot}")) and \
+                    not _came_back_as_str(
+                        (detail or {}).get(f"proj:frame.{slot}")):
+                # an unquoted slot is *evaluated*: what comes back is not a
+                # string (None, True, a type); another string is another cause
                 return f"script-frame-{slot}-unquoted"
         if _all(T, "frame.dtype:") and len(T) == 1 and _kinds_ok(
                 K, ("read-exc:NameError", "read-exc:TypeError",
@@ -246,88 +257,307 @@ def classify(route, kinds, tokens, detail):
 # coverage floors: about 1/4 of what the repaired tree gives (quick: minimum
 # over seeds 0,1,2,3,12345; thorough: seed 0, where the 6000 random cases
 # dominate every counter).  The deterministic catalogue alone gives every
-# counter at least once, whatever the seed.
-FLOORS = {
-"quick": {
-    "class:col.check-opt:ignore_na": 7,
-    "class:col.check-opt:n_failure_cases": 10,
-    "class:col.check-opt:raise_warning": 8, "class:col.check:equal_to": 8,
-    "class:col.check:greater_than": 7,
-    "class:col.check:greater_than_or_equal_to": 5,
-    "class:col.check:in_range": 8, "class:col.check:isin": 10,
-    "class:col.check:less_than": 5, "class:col.check:less_than_or_equal_to":
-    4, "class:col.check:not_equal_to": 7, "class:col.check:notin": 6,
-    "class:col.check:str_contains": 1, "class:col.check:str_endswith": 1,
-    "class:col.check:str_length": 4, "class:col.check:str_matches": 2,
-    "class:col.check:str_startswith": 2, "class:col.check:unique_values_eq":
-    6, "feature:col.check-opt": 27, "feature:col.checks": 3,
-    "feature:col.coerce": 1, "feature:col.description": 6,
-    "feature:col.name": 6, "feature:col.nullable": 1, "feature:col.regex":
-    1, "feature:col.required": 1, "feature:col.title": 7,
-    "feature:col.unique": 1, "feature:frame.check": 16,
-    "feature:frame.check-opt": 8, "feature:frame.coerce": 1,
-    "feature:frame.description": 4, "feature:frame.dtype": 1,
-    "feature:frame.name": 4, "feature:frame.ordered": 1,
-    "feature:frame.strict": 1, "feature:frame.title": 4,
-    "feature:frame.unique": 2, "feature:idx.check": 27,
-    "feature:idx.coerce": 1, "feature:idx.description": 3,
-    "feature:idx.name": 55, "feature:idx.nullable": 1, "feature:idx.title":
-    3, "feature:idx.unique": 1, "feature:index": 39, "feature:multiindex":
-    11, "monitor:json:pandera-eq": 180, "monitor:json:projection": 180,
-    "monitor:json:second-generation-text": 180,
-    "monitor:json:source-unchanged": 182, "monitor:json:verdict-vector":
-    180, "monitor:script:earlier-yaml-still-equal": 181,
-    "monitor:script:pandera-eq": 183, "monitor:script:projection": 183,
-    "monitor:script:second-generation-text": 183,
-    "monitor:script:source-unchanged": 183, "monitor:script:verdict-vector":
-    183, "monitor:yaml:pandera-eq": 181, "monitor:yaml:projection": 181,
-    "monitor:yaml:second-generation-text": 181,
-    "monitor:yaml:source-unchanged": 183, "monitor:yaml:verdict-vector":
-    181, "part:catalogue": 146, "part:random": 36, "probe:accept": 372,
-    "probe:reject": 716, "roundtrip_ok:json": 172, "roundtrip_ok:script":
-    174, "roundtrip_ok:yaml": 173
-},
-"thorough": {
-    "class:col.check-opt:ignore_na": 239,
-    "class:col.check-opt:n_failure_cases": 260,
-    "class:col.check-opt:raise_warning": 245, "class:col.check:equal_to":
-    137, "class:col.check:greater_than": 79,
-    "class:col.check:greater_than_or_equal_to": 80,
-    "class:col.check:in_range": 76, "class:col.check:isin": 145,
-    "class:col.check:less_than": 76,
-    "class:col.check:less_than_or_equal_to": 86,
-    "class:col.check:not_equal_to": 131, "class:col.check:notin": 111,
-    "class:col.check:str_contains": 23, "class:col.check:str_endswith": 23,
-    "class:col.check:str_length": 29, "class:col.check:str_matches": 24,
-    "class:col.check:str_startswith": 28,
-    "class:col.check:unique_values_eq": 103, "feature:col.check-opt": 746,
-    "feature:col.checks": 107, "feature:col.coerce": 61,
-    "feature:col.description": 186, "feature:col.name": 181,
-    "feature:col.nullable": 62, "feature:col.regex": 63,
-    "feature:col.required": 61, "feature:col.title": 174,
-    "feature:col.unique": 60, "feature:frame.check": 327,
-    "feature:frame.check-opt": 247, "feature:frame.coerce": 51,
-    "feature:frame.description": 95, "feature:frame.dtype": 52,
-    "feature:frame.name": 88, "feature:frame.ordered": 47,
-    "feature:frame.strict": 45, "feature:frame.title": 94,
-    "feature:frame.unique": 43, "feature:idx.check": 248,
-    "feature:idx.coerce": 25, "feature:idx.description": 47,
-    "feature:idx.name": 598, "feature:idx.nullable": 24,
-    "feature:idx.title": 44, "feature:idx.unique": 22, "feature:index": 345,
-    "feature:multiindex": 311, "monitor:json:pandera-eq": 1676,
-    "monitor:json:projection": 1676, "monitor:json:second-generation-text":
-    1676, "monitor:json:source-unchanged": 1734,
-    "monitor:json:verdict-vector": 1676,
-    "monitor:script:earlier-yaml-still-equal": 1677,
-    "monitor:script:pandera-eq": 1735, "monitor:script:projection": 1735,
-    "monitor:script:second-generation-text": 1735,
-    "monitor:script:source-unchanged": 1735,
-    "monitor:script:verdict-vector": 1735, "monitor:yaml:pandera-eq": 1677,
-    "monitor:yaml:projection": 1677, "monitor:yaml:second-generation-text":
-    1677, "monitor:yaml:source-unchanged": 1735,
-    "monitor:yaml:verdict-vector": 1677, "part:catalogue": 260,
-    "part:random": 1479, "probe:accept": 2641, "probe:reject": 7741,
-    "roundtrip_ok:json": 1526, "roundtrip_ok:script": 1579,
-    "roundtrip_ok:yaml": 1526
-},
-}
+# counter at least once, whatever the seed.  feature:/class:/strclass:/
+# strarg:/sibling:/history-case:/sequence:/part: count generated classes,
+# monitor:/probe:/roundtrip_ok: count evaluations of the deciding monitors.
+FLOORS = {'quick': {'class:col.check-opt:ignore_na': 30,
+           'class:col.check-opt:n_failure_cases': 38,
+           'class:col.check-opt:raise_warning': 32,
+           'class:col.check:equal_to': 19,
+           'class:col.check:greater_than': 33,
+           'class:col.check:greater_than_or_equal_to': 6,
+           'class:col.check:in_range': 9,
+           'class:col.check:isin': 48,
+           'class:col.check:less_than': 9,
+           'class:col.check:less_than_or_equal_to': 8,
+           'class:col.check:not_equal_to': 10,
+           'class:col.check:notin': 8,
+           'class:col.check:str_contains': 3,
+           'class:col.check:str_endswith': 2,
+           'class:col.check:str_length': 5,
+           'class:col.check:str_matches': 3,
+           'class:col.check:str_startswith': 7,
+           'class:col.check:unique_values_eq': 7,
+           'feature:col.check': 198,
+           'feature:col.check-arg': 232,
+           'feature:col.check-opt': 102,
+           'feature:col.checks': 2,
+           'feature:col.coerce': 1,
+           'feature:col.description': 7,
+           'feature:col.dtype': 393,
+           'feature:col.name': 8,
+           'feature:col.nullable': 1,
+           'feature:col.regex': 1,
+           'feature:col.required': 2,
+           'feature:col.title': 5,
+           'feature:col.unique': 1,
+           'feature:frame.add_missing_columns': 1,
+           'feature:frame.check': 20,
+           'feature:frame.check-arg': 26,
+           'feature:frame.check-opt': 11,
+           'feature:frame.checks': 1,
+           'feature:frame.coerce': 1,
+           'feature:frame.description': 4,
+           'feature:frame.dtype': 2,
+           'feature:frame.name': 6,
+           'feature:frame.ordered': 1,
+           'feature:frame.report_duplicates': 1,
+           'feature:frame.strict': 1,
+           'feature:frame.title': 5,
+           'feature:frame.unique': 2,
+           'feature:frame.unique_column_names': 1,
+           'feature:idx.check': 39,
+           'feature:idx.check-arg': 49,
+           'feature:idx.check-opt': 16,
+           'feature:idx.checks': 1,
+           'feature:idx.coerce': 1,
+           'feature:idx.description': 3,
+           'feature:idx.dtype': 81,
+           'feature:idx.name': 66,
+           'feature:idx.nullable': 1,
+           'feature:idx.title': 3,
+           'feature:idx.unique': 1,
+           'feature:index': 46,
+           'feature:multiindex': 15,
+           'feature:ncols': 268,
+           'feature:xcomp.checks': 26,
+           'history-case:seq:col.coerce-then-default': 1,
+           'history-case:seq:col.description-then-default': 1,
+           'history-case:seq:col.nullable-then-default': 1,
+           'history-case:seq:col.required-then-default': 1,
+           'history-case:seq:col.title-then-default': 1,
+           'history-case:seq:col.unique-then-default': 1,
+           'history-case:seq:frame.coerce-then-default': 1,
+           'history-case:seq:frame.name-then-default': 1,
+           'history-case:seq:frame.ordered-then-default': 1,
+           'history-case:seq:frame.strict-then-default': 1,
+           'history-case:seq:frame.title-then-default': 1,
+           'history-case:seq:frame.unique-then-default': 1,
+           'history-case:seq:option-values': 1,
+           'history-case:seq:opts-then-plain': 9,
+           'history-case:seq:plain-then-opts': 9,
+           'history-case:seq:same-check-other-column-label': 1,
+           'history-case:seq:same-check-other-dtype': 3,
+           'history-case:seq:same-schema-twice': 1,
+           'history-case:sibling.col-col-col:option-values': 1,
+           'history-case:sibling.col-col:opts-first': 4,
+           'history-case:sibling.col-col:other-dtype': 1,
+           'history-case:sibling.col-col:plain-first': 4,
+           'history-case:sibling.col-idx:opts-first': 1,
+           'history-case:sibling.col-idx:plain-first': 1,
+           'history-case:sibling.frame-col:opts-first': 1,
+           'history-case:sibling.frame-col:plain-first': 1,
+           'history-case:sibling.mi-mi:opts-first': 1,
+           'history-case:sibling.mi-mi:plain-first': 1,
+           'monitor:json:pandera-eq': 264,
+           'monitor:json:projection': 264,
+           'monitor:json:second-generation-text': 264,
+           'monitor:json:source-unchanged': 267,
+           'monitor:json:verdict-vector': 264,
+           'monitor:json:write-repeatable': 264,
+           'monitor:script:earlier-yaml-still-equal': 264,
+           'monitor:script:pandera-eq': 268,
+           'monitor:script:projection': 268,
+           'monitor:script:second-generation-text': 268,
+           'monitor:script:source-unchanged': 268,
+           'monitor:script:verdict-vector': 268,
+           'monitor:script:write-repeatable': 268,
+           'monitor:yaml:pandera-eq': 264,
+           'monitor:yaml:projection': 264,
+           'monitor:yaml:second-generation-text': 264,
+           'monitor:yaml:source-unchanged': 268,
+           'monitor:yaml:verdict-vector': 264,
+           'monitor:yaml:write-repeatable': 264,
+           'part:catalogue': 188,
+           'part:catalogue-seq': 15,
+           'part:random': 27,
+           'part:random-seq': 8,
+           'probe:accept': 567,
+           'probe:reject': 1026,
+           'roundtrip_ok:json': 255,
+           'roundtrip_ok:script': 258,
+           'roundtrip_ok:yaml': 256,
+           'sequence:later-element-judged': 27,
+           'sequence:later-element:attributes-differ': 6,
+           'sequence:later-element:options-differ': 16,
+           'sequence:later-element:same-spec': 3,
+           'sequence:len=2': 18,
+           'sequence:len=3': 3,
+           'sibling:same-check-different-options': 25,
+           'sibling:same-check-same-options': 1,
+           'strarg:backslash': 6,
+           'strarg:brace': 3,
+           'strarg:dquote': 2,
+           'strarg:empty': 1,
+           'strarg:keyword': 2,
+           'strarg:newline': 1,
+           'strarg:plain': 44,
+           'strarg:pyword': 7,
+           'strarg:space': 6,
+           'strarg:squote': 2,
+           'strarg:unicode': 2,
+           'strarg:yamlish': 5,
+           'strclass:backslash': 4,
+           'strclass:brace': 4,
+           'strclass:dquote': 3,
+           'strclass:empty': 3,
+           'strclass:keyword': 4,
+           'strclass:newline': 4,
+           'strclass:nonstr:int': 2,
+           'strclass:plain': 64,
+           'strclass:pyword': 4,
+           'strclass:space': 5,
+           'strclass:squote': 3,
+           'strclass:unicode': 4,
+           'strclass:yamlish': 3},
+ 'thorough': {'class:col.check-opt:ignore_na': 805,
+              'class:col.check-opt:n_failure_cases': 867,
+              'class:col.check-opt:raise_warning': 813,
+              'class:col.check:equal_to': 371,
+              'class:col.check:greater_than': 189,
+              'class:col.check:greater_than_or_equal_to': 211,
+              'class:col.check:in_range': 206,
+              'class:col.check:isin': 400,
+              'class:col.check:less_than': 229,
+              'class:col.check:less_than_or_equal_to': 210,
+              'class:col.check:not_equal_to': 336,
+              'class:col.check:notin': 273,
+              'class:col.check:str_contains': 71,
+              'class:col.check:str_endswith': 66,
+              'class:col.check:str_length': 62,
+              'class:col.check:str_matches': 58,
+              'class:col.check:str_startswith': 95,
+              'class:col.check:unique_values_eq': 242,
+              'feature:col.check': 3024,
+              'feature:col.check-arg': 3707,
+              'feature:col.check-opt': 2486,
+              'feature:col.checks': 129,
+              'feature:col.coerce': 64,
+              'feature:col.description': 208,
+              'feature:col.dtype': 4578,
+              'feature:col.name': 227,
+              'feature:col.nullable': 74,
+              'feature:col.regex': 74,
+              'feature:col.required': 78,
+              'feature:col.title': 192,
+              'feature:col.unique': 67,
+              'feature:frame.add_missing_columns': 52,
+              'feature:frame.check': 425,
+              'feature:frame.check-arg': 516,
+              'feature:frame.check-opt': 285,
+              'feature:frame.checks': 4,
+              'feature:frame.coerce': 55,
+              'feature:frame.description': 114,
+              'feature:frame.dtype': 55,
+              'feature:frame.name': 100,
+              'feature:frame.ordered': 53,
+              'feature:frame.report_duplicates': 56,
+              'feature:frame.strict': 53,
+              'feature:frame.title': 115,
+              'feature:frame.unique': 61,
+              'feature:frame.unique_column_names': 47,
+              'feature:idx.check': 688,
+              'feature:idx.check-arg': 844,
+              'feature:idx.check-opt': 583,
+              'feature:idx.checks': 34,
+              'feature:idx.coerce': 31,
+              'feature:idx.description': 57,
+              'feature:idx.dtype': 1562,
+              'feature:idx.name': 867,
+              'feature:idx.nullable': 29,
+              'feature:idx.title': 50,
+              'feature:idx.unique': 28,
+              'feature:index': 472,
+              'feature:multiindex': 445,
+              'feature:ncols': 2608,
+              'feature:xcomp.checks': 459,
+              'history-case:seq:col.coerce-then-default': 1,
+              'history-case:seq:col.description-then-default': 1,
+              'history-case:seq:col.nullable-then-default': 1,
+              'history-case:seq:col.required-then-default': 1,
+              'history-case:seq:col.title-then-default': 1,
+              'history-case:seq:col.unique-then-default': 1,
+              'history-case:seq:frame.coerce-then-default': 1,
+              'history-case:seq:frame.name-then-default': 1,
+              'history-case:seq:frame.ordered-then-default': 1,
+              'history-case:seq:frame.strict-then-default': 1,
+              'history-case:seq:frame.title-then-default': 1,
+              'history-case:seq:frame.unique-then-default': 1,
+              'history-case:seq:option-values': 9,
+              'history-case:seq:opts-then-plain': 54,
+              'history-case:seq:plain-then-opts': 54,
+              'history-case:seq:same-check-other-column-label': 6,
+              'history-case:seq:same-check-other-dtype': 3,
+              'history-case:seq:same-schema-twice': 6,
+              'history-case:sibling.col-col-col:option-values': 3,
+              'history-case:sibling.col-col:opts-first': 27,
+              'history-case:sibling.col-col:other-dtype': 1,
+              'history-case:sibling.col-col:plain-first': 27,
+              'history-case:sibling.col-idx:opts-first': 9,
+              'history-case:sibling.col-idx:plain-first': 9,
+              'history-case:sibling.frame-col:opts-first': 3,
+              'history-case:sibling.frame-col:plain-first': 3,
+              'history-case:sibling.mi-mi:opts-first': 9,
+              'history-case:sibling.mi-mi:plain-first': 9,
+              'monitor:json:pandera-eq': 2518,
+              'monitor:json:projection': 2518,
+              'monitor:json:second-generation-text': 2518,
+              'monitor:json:source-unchanged': 2604,
+              'monitor:json:verdict-vector': 2518,
+              'monitor:json:write-repeatable': 2518,
+              'monitor:script:earlier-yaml-still-equal': 2519,
+              'monitor:script:pandera-eq': 2605,
+              'monitor:script:projection': 2605,
+              'monitor:script:second-generation-text': 2605,
+              'monitor:script:source-unchanged': 2605,
+              'monitor:script:verdict-vector': 2605,
+              'monitor:script:write-repeatable': 2605,
+              'monitor:yaml:pandera-eq': 2519,
+              'monitor:yaml:projection': 2519,
+              'monitor:yaml:second-generation-text': 2519,
+              'monitor:yaml:source-unchanged': 2605,
+              'monitor:yaml:verdict-vector': 2519,
+              'monitor:yaml:write-repeatable': 2519,
+              'part:catalogue': 455,
+              'part:catalogue-seq': 67,
+              'part:random': 1129,
+              'part:random-seq': 370,
+              'probe:accept': 3917,
+              'probe:reject': 11688,
+              'roundtrip_ok:json': 2331,
+              'roundtrip_ok:script': 2409,
+              'roundtrip_ok:yaml': 2331,
+              'sequence:later-element-judged': 585,
+              'sequence:later-element:attributes-differ': 99,
+              'sequence:later-element:options-differ': 310,
+              'sequence:later-element:same-spec': 175,
+              'sequence:len=2': 290,
+              'sequence:len=3': 147,
+              'sibling:same-check-different-options': 381,
+              'sibling:same-check-same-options': 78,
+              'strarg:backslash': 113,
+              'strarg:brace': 38,
+              'strarg:dquote': 33,
+              'strarg:empty': 7,
+              'strarg:keyword': 31,
+              'strarg:newline': 7,
+              'strarg:plain': 356,
+              'strarg:pyword': 164,
+              'strarg:space': 140,
+              'strarg:squote': 35,
+              'strarg:unicode': 96,
+              'strarg:yamlish': 82,
+              'strclass:backslash': 105,
+              'strclass:brace': 112,
+              'strclass:dquote': 92,
+              'strclass:empty': 86,
+              'strclass:keyword': 82,
+              'strclass:newline': 98,
+              'strclass:nonstr:int': 2,
+              'strclass:other': 2,
+              'strclass:plain': 907,
+              'strclass:pyword': 103,
+              'strclass:space': 92,
+              'strclass:squote': 93,
+              'strclass:unicode': 96,
+              'strclass:yamlish': 99}}
